@@ -312,6 +312,59 @@ pub fn generate(tier: &str, seed: u64, out: &mut Out) {
             });
         }
         out.count("source:random");
-        run_history(&History { mode: r.below(4) as u8, pool, lens, ops }, out);
+        let mode = r.below(4) as u8;
+        // the same pool through ONE CurveBuffers with the mode changing from call to call,
+        // repeating the previous request under another mode (implementation-side only)
+        mode_switch(&mut r, &pool, &lens, out);
+        run_history(&History { mode, pool, lens, ops }, out);
+    }
+}
+
+fn mode_switch(r: &mut Rng, pool: &[Vec<Cp>], lens: &[Option<f64>], out: &mut Out) {
+    let pts: Vec<_> = pool.iter().map(|p| to_points(p)).collect();
+    let n = r.range(4, 10) as usize;
+    let mut seq: Vec<(u8, usize, usize, bool)> = vec![];
+    for _ in 0..n {
+        let (k, l) = (r.below(pts.len()), r.below(lens.len()));
+        let m = r.below(4) as u8;
+        seq.push((m, k, l, r.chance(1, 2)));
+        if r.chance(1, 2) {
+            // the very same request again, under another mode
+            seq.push(((m + 1 + r.below(3) as u8) % 4, k, l, r.chance(1, 2)));
+        }
+    }
+    let desc = format!(
+        "one CurveBuffers, requests (mode, pool index, length index, borrowed) = {:?}; pool={:?} lens={:?}",
+        seq,
+        pool.iter().map(|p| describe(&CurveCase { mode: 0, pts: p.clone(), len: None })).collect::<Vec<_>>(),
+        lens
+    );
+    let seq2 = seq.clone();
+    let lens2 = lens.to_vec();
+    let res = guarded(move || {
+        let mut bufs = CurveBuffers::default();
+        let mut bad: Option<String> = None;
+        for (n, &(m, k, l, borrowed)) in seq2.iter().enumerate() {
+            let mode = mode_of(m);
+            let reference = Curve::new(mode, &pts[k], lens2[l], &mut CurveBuffers::default());
+            let ok = if borrowed {
+                let c = BorrowedCurve::new(mode, &pts[k], lens2[l], &mut bufs);
+                same(c.path(), c.lengths(), &reference)
+            } else {
+                let c = Curve::new(mode, &pts[k], lens2[l], &mut bufs);
+                same(c.path(), c.lengths(), &reference)
+            };
+            if !ok && bad.is_none() {
+                bad = Some(format!("request #{n} (mode {m}) differs from a fresh computation of the same request"));
+            }
+        }
+        bad
+    });
+    out.oracle_checks += seq.len() as u64;
+    out.count("source:mode-switch");
+    match res {
+        Ok(None) => {}
+        Ok(Some(x)) => out.fail("", &desc, &x),
+        Err(e) => out.fail("", &desc, &format!("panic: {e}")),
     }
 }
